@@ -38,6 +38,9 @@ func (g *gen) sortedKeys(n int) [][]byte {
 	if g.chance(1, 2) {
 		prefix = strings.Repeat("p", g.pick(1, 8, 40, 200))
 	}
+	if g.chance(1, 6) {
+		set[""] = true // the empty key is a legal key (first entry of the table/block)
+	}
 	for len(set) < n {
 		var k []byte
 		switch style {
@@ -52,9 +55,6 @@ func (g *gen) sortedKeys(n int) [][]byte {
 			k = g.bytesN(1 + g.intn(10))
 		default:
 			k = []byte(fmt.Sprintf("%s%d", prefix, g.intn(50*n+10)))
-		}
-		if len(k) == 0 {
-			continue
 		}
 		set[string(k)] = true
 	}
@@ -97,6 +97,9 @@ func fmtSstEntries(es []sstEntry) string {
 // seek targets: present keys, between keys, before first, after last, prefixes / extensions
 func (g *gen) seekTarget(es []sstEntry) []byte {
 	e := es[g.intn(len(es))].k
+	if len(e) == 0 { // the empty key: itself, or its immediate successors
+		return [][]byte{{}, {0}, {0, 0}, {1}}[g.intn(4)]
+	}
 	switch g.intn(8) {
 	case 0, 1, 2:
 		return e
